@@ -79,6 +79,7 @@ class Z3Solver:
                 st2, m2, dt2 = self.check(assertions, timeout_ms, kind, strict_ints=False, abstract_floor=False)
                 return st2, m2, dt + dt2
         tm.set_abstract_floor(bool(abstract_floor))
+        assertions, trig_back = tm.rationalize_trig(list(assertions))
 
         fv = tm.free_vars(assertions)
         has_int = any(k == "int" for k in fv.values())
@@ -101,6 +102,21 @@ class Z3Solver:
             r = s.check()
         except z3.Z3Exception as e:  # pragma: no cover
             r = z3.unknown
+        if r == z3.unknown and kind in ("main", "den"):
+            # second opinion from the other z3 front end (tactic portfolio vs. nlsat) with a different seed
+            s2 = z3.Solver() if pure else z3.SolverFor("QF_NRA") if not ({"floor", "fn"} & ops) else z3.Solver()
+            s2.set("timeout", int(timeout_ms or self.timeout_ms))
+            s2.set("random_seed", 7)
+            for z in zs:
+                s2.add(z)
+            for z in ctx.side:
+                s2.add(z)
+            try:
+                r2 = s2.check()
+            except z3.Z3Exception:
+                r2 = z3.unknown
+            if r2 != z3.unknown:
+                r, s = r2, s2
         dt = time.time() - t0
         st = self.stats
         st.queries += 1
@@ -116,6 +132,11 @@ class Z3Solver:
             for name, kind_ in fv.items():
                 z = z3.Bool(name) if kind_ == "bool" else (z3.Int(name) if (kind_ == "int" and strict_ints) else z3.Real(name))
                 model[name] = _model_value(m, z)
+            import math as _math
+
+            for tname, x in trig_back.items():
+                if x.op == "v" and model.get(tname) is not None:
+                    model[x.args[0]] = Fraction(2 * _math.atan(float(model[tname]))).limit_denominator(10**9)
             if has_int and not strict_ints and any(kind_ == "int" and (model[name] is None or model[name].denominator != 1) for name, kind_ in fv.items()):
                 # relaxed model is not integral: decide again with integer sorts
                 tm.set_relax_ints(True)
